@@ -952,6 +952,15 @@ func propC07(c *Ctx) {
 		}
 		all = append(all, vLong(y), vInt(int(y)), vTime(time.Unix(x%253402300799, 0)))
 	}
+	// date-times in zones with daylight saving: the repeated hour when it ends, the skipped hour when it starts, both
+	// representations of one instant
+	for _, zn := range []string{"America/New_York", "Europe/Berlin", "Australia/Lord_Howe"} {
+		if loc, err := time.LoadLocation(zn); err == nil {
+			for _, sec := range []int64{1636263000, 1636266600, 1636270200, 1615705200, 1615708800, 1635640200, 1635643800, 1635647400, 1617496200, 1617499800} {
+				all = append(all, vTime(time.Unix(sec, 0).In(loc)), vTime(time.Unix(sec, 500).In(loc)))
+			}
+		}
+	}
 	for _, a := range all {
 		for t := 0; t <= 10; t++ {
 			for _, m := range []string{"u", "s"} {
